@@ -410,6 +410,19 @@ func (e *CoreEnd) StartSender(kind int, pausePM, pauseMaxUs int) {
 			return
 		}
 		mss := e.Cfg.mss()
+		if !e.Cfg.Stream && e.Peer.Cfg.rcvWnd() >= 256 && e.MaxMsg == 0 && s.Tape.Chance(e.sendStream+"/big", 150) {
+			// A message of exactly 256 fragments (one more than the frg byte can
+			// number): the core may refuse it - then it was never sent - or accept
+			// it - then it must arrive like any other, with its boundaries. (A stream
+			// of its own: older tapes keep their meaning.)
+			big := 255*mss + 1 + s.Tape.Choose(e.sendStream+"/big", mss)
+			if e.Send(big) {
+				e.Target += int64(big) // on top of the drawn transfer
+				s.Stats.Probe("message-of-256-fragments-accepted")
+			} else {
+				s.Stats.Probe("message-of-256-fragments-refused")
+			}
+		}
 		size := drawSize(s.Tape, e.sendStream, kind, mss)
 		// a message must fit the peer's receive window and the 255-fragment limit
 		maxFrag := min(255, e.Peer.Cfg.rcvWnd())
